@@ -174,7 +174,8 @@ theorem walk_seek (c : Cfg) (o : RecOpt) (h8 : 8 ∣ c.B) (hB : 0 < c.B) (hP : G
       ∃ n', n ≤ n' ∧ Walk c o docs tfs data n' (SkipReader.seek c target fuel S).1 ∧
         (∀ d ∈ (docs.drop n).take (n' - n), d < target) ∧
         (c.B ≤ (docs.drop n').length → target ≤ ((docs.drop n').take c.B).getLastD 0) ∧
-        ((SkipReader.seek c target fuel S).2 = false → (SkipReader.seek c target fuel S).1 = S) := by
+        ((SkipReader.seek c target fuel S).2 = false → (SkipReader.seek c target fuel S).1 = S) ∧
+        n' = landing c.B docs target fuel n := by
   induction k with
   | zero =>
     intro n fuel S hk hw hfuel
@@ -190,7 +191,9 @@ theorem walk_seek (c : Cfg) (o : RecOpt) (h8 : 8 ∣ c.B) (hB : 0 < c.B) (hP : G
     have hs : SkipReader.seek c target (f + 1) S = (S, false) := by
       unfold SkipReader.seek; simp [hlast, ht]
     rw [hs]
-    exact ⟨n, Nat.le_refl _, hw, by simp, fun h => by omega, fun _ => rfl⟩
+    refine ⟨n, Nat.le_refl _, hw, by simp, fun h => by omega, fun _ => rfl, ?_⟩
+    unfold landing
+    rw [if_neg (fun h => by omega)]
   | succ k ih =>
     intro n fuel S hk hw hfuel
     obtain ⟨f, rfl⟩ : ∃ f, fuel = f + 1 := ⟨fuel - 1, by omega⟩
@@ -203,12 +206,14 @@ theorem walk_seek (c : Cfg) (o : RecOpt) (h8 : 8 ∣ c.B) (hB : 0 < c.B) (hP : G
     · have hs : SkipReader.seek c target (f + 1) S = (S, false) := by
         unfold SkipReader.seek; simp [hle]
       rw [hs]
-      exact ⟨n, Nat.le_refl _, hw, by simp, fun _ => by rw [← hlastS]; exact hle, fun _ => rfl⟩
+      refine ⟨n, Nat.le_refl _, hw, by simp, fun _ => by rw [← hlastS]; exact hle, fun _ => rfl, ?_⟩
+      unfold landing
+      rw [if_neg (fun h => by rw [← hlastS] at h; omega)]
     · have hwa := walk_advance c o h8 hB hP docs tfs data hv n k S hk hw
       have hdd : (docs.drop n).drop c.B = docs.drop (n + c.B) := by rw [List.drop_drop]
       have hk'' : k = (docs.drop (n + c.B)).length / c.B := by
         rw [← hdd, List.length_drop]; exact hk'
-      obtain ⟨n', hn', hw', hall, hlast', _⟩ := ih (n + c.B) f (S.advance c) hk'' hwa (by omega)
+      obtain ⟨n', hn', hw', hall, hlast', _, hland⟩ := ih (n + c.B) f (S.advance c) hk'' hwa (by omega)
       have hs : (SkipReader.seek c target (f + 1) S).1 = (SkipReader.seek c target f (S.advance c)).1 ∧
           (SkipReader.seek c target (f + 1) S).2 = true := by
         have := seek_fst c target f (S.advance c) (by omega)
@@ -218,22 +223,25 @@ theorem walk_seek (c : Cfg) (o : RecOpt) (h8 : 8 ∣ c.B) (hB : 0 < c.B) (hP : G
         · rename_i h; simp only [h, if_true] at this; exact ⟨this, rfl⟩
         · exact ⟨rfl, rfl⟩
       rw [hs.1, hs.2]
-      refine ⟨n', by omega, hw', ?_, hlast', fun h => by simp at h⟩
-      intro d hd
-      -- the docs of the skipped block are below its last doc, which is below the target
-      have hsplit : (docs.drop n).take (n' - n) =
-          (docs.drop n).take c.B ++ (docs.drop (n + c.B)).take (n' - (n + c.B)) := by
-        have e : n' - n = c.B + (n' - (n + c.B)) := by omega
-        rw [e, List.take_add, hdd]
-      rw [hsplit, List.mem_append] at hd
-      rcases hd with hd | hd
-      · have hne : (docs.drop n).take c.B ≠ [] := by intro h; rw [h] at hd; simp at hd
-        have hsorted : ((docs.drop n).take c.B).Pairwise (· < ·) :=
-          (hv.drop n).sorted.sublist (List.take_sublist _ _)
-        have hdl : d ≤ ((docs.drop n).take c.B).getLastD 0 := le_getLastD_of_sorted _ hsorted d hd
-        rw [← hlastS] at hdl
-        omega
-      · exact hall d hd
+      refine ⟨n', by omega, hw', ?_, hlast', fun h => by simp at h, ?_⟩
+      · intro d hd
+        -- the docs of the skipped block are below its last doc, which is below the target
+        have hsplit : (docs.drop n).take (n' - n) =
+            (docs.drop n).take c.B ++ (docs.drop (n + c.B)).take (n' - (n + c.B)) := by
+          have e : n' - n = c.B + (n' - (n + c.B)) := by omega
+          rw [e, List.take_add, hdd]
+        rw [hsplit, List.mem_append] at hd
+        rcases hd with hd | hd
+        · have hne : (docs.drop n).take c.B ≠ [] := by intro h; rw [h] at hd; simp at hd
+          have hsorted : ((docs.drop n).take c.B).Pairwise (· < ·) :=
+            (hv.drop n).sorted.sublist (List.take_sublist _ _)
+          have hdl : d ≤ ((docs.drop n).take c.B).getLastD 0 := le_getLastD_of_sorted _ hsorted d hd
+          rw [← hlastS] at hdl
+          omega
+        · exact hall d hd
+      · rw [hland]
+        conv => rhs; unfold landing
+        rw [if_pos ⟨hlen, by rw [← hlastS]; omega⟩]
 
 /-! ### the block under the skip reader -/
 
@@ -398,14 +406,15 @@ theorem seek_lazyAt (o : RecOpt) (docs tfs : List Nat) (hv : ValidList docs tfs)
       (p.seek cfg target).2 = (docs.drop n').countP (· < target) ∧
       (p.seek cfg target).2 < cfg.B ∧
       (p.seek cfg target).1.docBuf.getD (p.seek cfg target).2 cfg.T =
-        (docs.drop n').getD ((docs.drop n').countP (· < target)) cfg.T := by
+        (docs.drop n').getD ((docs.drop n').countP (· < target)) cfg.T ∧
+      n' = landing cfg.B docs target (docs.length / cfg.B + 2) n := by
   obtain ⟨hw, hbuf, hdf⟩ := hp
   have hB : 0 < cfg.B := by decide
   have hfuel : (docs.drop n).length / cfg.B + 1 ≤ p.docFreq / cfg.B + 2 := by
     have : (docs.drop n).length / cfg.B ≤ docs.length / cfg.B :=
       Nat.div_le_div_right (by simp)
     rw [hdf]; omega
-  obtain ⟨n', hn', hw', hall, hlast, hsame⟩ :=
+  obtain ⟨n', hn', hw', hall, hlast, hsame, hland⟩ :=
     walk_seek cfg o (by decide) hB bp4x_good docs tfs p.data hv target ht _ n _ p.skip rfl hw hfuel
   -- the cursor after the skip reader moved (or not) and the block was loaded
   have hstate : ((p.seek cfg target).1.skip = (SkipReader.seek cfg target (p.docFreq / cfg.B + 2) p.skip).1 ∧
@@ -437,7 +446,8 @@ theorem seek_lazyAt (o : RecOpt) (docs tfs : List Nat) (hv : ValidList docs tfs)
   have hidx : (p.seek cfg target).2 = (docs.drop n').countP (· < target) := by
     have : (p.seek cfg target).2 = searchBlock cfg (p.seek cfg target).1.docBuf target := rfl
     rw [this, (searchBlock_spec _ target b1 b2).1, b3]
-  refine ⟨n', hn', ⟨?_, fun _ => ?_, by rw [e3]; exact hdf⟩, e4, hall, hidx, by rw [hidx]; exact b4, ?_⟩
+  refine ⟨n', hn', ⟨?_, fun _ => ?_, by rw [e3]; exact hdf⟩, e4, hall, hidx, by rw [hidx]; exact b4, ?_,
+    by rw [hland, hdf]⟩
   · rw [e1, e2]; exact hw'
   · rw [e5, e1, e2]
   · rw [hidx]; exact b5
@@ -483,7 +493,7 @@ theorem seekAll_lazyAt (o : RecOpt) (docs tfs : List Nat) (hv : ValidList docs t
   | nil => intro _ _ _ _ _ _ _; rfl
   | cons t ts ih =>
     intro n p hp hn hs hts hbelow
-    obtain ⟨n', hn', hp', _, hall, hidx, _, hdoc⟩ :=
+    obtain ⟨n', hn', hp', _, hall, hidx, _, hdoc, _⟩ :=
       seek_lazyAt o docs tfs hv hT t (hts t (by simp)) n p hp
     -- everything before the block the cursor is now on is below the target
     have hbelow' : ∀ d ∈ docs.take n', d < t := by
@@ -645,5 +655,76 @@ theorem reset_freqsAt (c : Cfg) (p : BlockPostings) (docFreq : Nat) (bytes : Lis
   apply loadBlock_freqsAt
   · rfl
   · exact hf
+
+/-! ### block-level programs mixing `advance` and `seek` -/
+
+theorem loadBlock_unloaded_skip (c : Cfg) (p : BlockPostings) (S : SkipReader) :
+    (({ p with skip := S, loaded := false } : BlockPostings).loadBlock c).skip = S ∧
+    (({ p with skip := S, loaded := false } : BlockPostings).loadBlock c).data = p.data ∧
+    (({ p with skip := S, loaded := false } : BlockPostings).loadBlock c).docFreq = p.docFreq ∧
+    (({ p with skip := S, loaded := false } : BlockPostings).loadBlock c).docBuf = blockBuf c S p.data := by
+  refine ⟨by rw [loadBlock_skip], by rw [loadBlock_data], by rw [loadBlock_docFreq], ?_⟩
+  rw [loadBlock_docBuf _ _ rfl]
+
+/-- `advance` out of a full block: the cursor is on the next block, whose first doc the buffer shows -/
+theorem advance_lazyAt (o : RecOpt) (docs tfs : List Nat) (hv : ValidList docs tfs) (n : Nat)
+    (p : BlockPostings) (hp : LazyAt cfg o docs tfs n p) (hfull : cfg.B ≤ (docs.drop n).length) :
+    LazyAt cfg o docs tfs (n + cfg.B) (p.advance cfg) ∧
+    (p.advance cfg).docBuf.getD 0 cfg.T = docs.getD (n + cfg.B) cfg.T := by
+  obtain ⟨hw, _, hdf⟩ := hp
+  have hB : 0 < cfg.B := by decide
+  obtain ⟨k, hk⟩ : ∃ k, k + 1 = (docs.drop n).length / cfg.B := by
+    have : 1 ≤ (docs.drop n).length / cfg.B := (Nat.one_le_div_iff hB).mpr hfull
+    exact ⟨(docs.drop n).length / cfg.B - 1, by omega⟩
+  have hwa := walk_advance cfg o (by decide) hB bp4x_good docs tfs p.data hv n k p.skip hk hw
+  obtain ⟨e1, e2, e3, e5⟩ := loadBlock_unloaded_skip cfg p (p.skip.advance cfg)
+  have hadv : p.advance cfg =
+      (({ p with skip := p.skip.advance cfg, loaded := false } : BlockPostings).loadBlock cfg) := rfl
+  have hbw := blockBuf_walk cfg o hB (by decide) bp4x_good docs tfs p.data hv (n + cfg.B) _ hwa
+  refine ⟨⟨by rw [hadv, e1, e2]; exact hwa, fun _ => by rw [hadv, e5, e1, e2], by rw [hadv, e3]; exact hdf⟩, ?_⟩
+  rw [hadv, e5, hbw]
+  split
+  · rename_i hl
+    simp only [List.getD_eq_getElem?_getD, List.getElem?_take, hB, if_true, List.getElem?_drop, Nat.add_zero]
+  · rename_i hl
+    simp only [padTo, List.getD_eq_getElem?_getD]
+    cases hd : docs.drop (n + cfg.B) with
+    | nil =>
+      have hlen : docs.length ≤ n + cfg.B := by
+        have := congrArg List.length hd
+        simp only [List.length_drop, List.length_nil] at this
+        omega
+      rw [List.getElem?_eq_none hlen]
+      simp only [List.length_nil, Nat.sub_zero, List.nil_append, Option.getD_none]
+      rw [List.getElem?_replicate]
+      simp [hB]
+    | cons d rest =>
+      have : docs[n + cfg.B]? = some d := by
+        have := congrArg (fun l => l[0]?) hd
+        simpa [List.getElem?_drop] using this
+      simp [this]
+
+/-- **block-level programs**: any program of `advance` (out of full blocks) and `seek` on the lazy
+cursor shows exactly what the doc list prescribes -/
+theorem runOps_lazyAt (o : RecOpt) (docs tfs : List Nat) (hv : ValidList docs tfs)
+    (hT : ∀ d ∈ docs, d < cfg.T) (ops : List BOp) :
+    ∀ (n : Nat) (p : BlockPostings), LazyAt cfg o docs tfs n p →
+      okBlockOps cfg.B cfg.T docs (docs.length / cfg.B + 2) n ops →
+      BlockPostings.runOps cfg p ops = specBlockOps cfg.B cfg.T docs (docs.length / cfg.B + 2) n ops := by
+  induction ops with
+  | nil => intro _ _ _ _; rfl
+  | cons op ops ih =>
+    intro n p hp hok
+    cases op with
+    | advance =>
+      obtain ⟨hfull, hok'⟩ := hok
+      obtain ⟨hp', hd⟩ := advance_lazyAt o docs tfs hv n p hp hfull
+      simp only [BlockPostings.runOps, specBlockOps]
+      rw [hd, ih _ _ hp' hok']
+    | seek t =>
+      obtain ⟨ht, hok'⟩ := hok
+      obtain ⟨n', _, hp', _, _, _, _, hdoc, hland⟩ := seek_lazyAt o docs tfs hv hT t ht n p hp
+      simp only [BlockPostings.runOps, specBlockOps]
+      rw [← hland, hdoc, ih _ _ hp' (by rw [hland]; exact hok')]
 
 end TantivyModel.Postings
